@@ -106,6 +106,9 @@ func runConcurrent(payload []*Sx) *Sx {
 			}
 		}
 	}
+	// the batch request (template and the caller's variable value slices, in their order) is an input too
+	snapBatch := func() string { return rawDumpCap(reflect.ValueOf(breq)) }
+	batchBefore := snapBatch()
 	before := snapshot(ps, em, req, vals)
 	// sequential reference results
 	dec0, diag0 := cedar.Authorize(ps, em, req)
@@ -216,6 +219,9 @@ func runConcurrent(payload []*Sx) *Sx {
 	after := snapshot(ps, em, req, vals)
 	if before != after {
 		problems = append(problems, "inputs-mutated")
+	}
+	if snapBatch() != batchBefore {
+		problems = append(problems, "batch-request-mutated")
 	}
 	if len(problems) == 0 {
 		return L(A("ok"))
